@@ -159,6 +159,14 @@ func (ctx *formatCtx) insertIdents(exprs ...ast.Expr) {
 	}
 }
 
+func (ctx *formatCtx) insertLambdaParams(lhs []*ast.Ident) {
+	for _, id := range lhs {
+		if id.Name != "_" {
+			ctx.insert(id.Name)
+		}
+	}
+}
+
 func (ctx *formatCtx) insertFields(flds *ast.FieldList) {
 	if flds != nil {
 		for _, fld := range flds.List {
